@@ -65,7 +65,7 @@ def main():
             rc1, d1 = digest(scratch, check, env)
             t = subprocess.run([PY, "-m", "pytest", "-q", "-p", "no:cacheprovider", "tests"], cwd=scratch, env=env, capture_output=True, text=True)
             tests_ok = t.returncode == 0
-            files = [l[6:].strip() for l in open(os.path.join(d, "patch.diff")) if l.startswith("+++ b/")]
+            files = [l[6:].split("\t")[0].strip() for l in open(os.path.join(d, "patch.diff")) if l.startswith("+++ b/")]
             props = props_arg or sorted({p_ for f in files for p_ in BY_FILE.get(f, ALL)})
             t0 = time.time()
             alarms = []
